@@ -7,7 +7,8 @@ import time
 from . import tlc as T
 
 VERIF = T.VERIF
-EVIDENCE = os.path.join(VERIF, "evidence")
+# checks run against a scratch copy (VERIF_REPO=..., seeded changes) must not overwrite the committed evidence
+EVIDENCE = os.environ.get("VERIF_EVIDENCE_DIR") or os.path.join(VERIF, "evidence")
 REPLAYS = os.path.join(EVIDENCE, "replays")
 KNOWN = os.path.join(VERIF, "known_findings.json")
 PYTHON = "/venv/bin/python"
